@@ -113,6 +113,9 @@ type instance struct {
 	// verifiably left its receive loop (it called WatchStateUpdate again): an outage of
 	// arbitrary length lies between delivery and the client's next read
 	exposed int
+	// same, where the client verifiably sat in its finalised-height retry loop (a
+	// FinalisedHeight call failed while these items were already in its channel)
+	exposedFin int
 	view     map[int]*viewEntry
 	order    int
 
@@ -158,8 +161,9 @@ type world struct {
 	inst     *instance
 	nextInst int
 
-	failWatch int
-	failFinal int
+	failWatch     int
+	failFinal     int
+	finalFailures int
 
 	heads     []headRec
 	feedHeads []headRec
@@ -342,10 +346,10 @@ func (w *world) advanceView(in *instance) {
 }
 
 // best: the log the property designates, over what the client has consumed so far.
-func best(in *instance, f uint64) *viewEntry {
+func best(in *instance, f uint64, doomed map[int]bool) *viewEntry {
 	var b *viewEntry
 	for _, v := range in.view {
-		if v.removed || v.e.L1 > f {
+		if v.removed || v.e.L1 > f || doomed[v.e.ID] {
 			continue
 		}
 		if b == nil || v.e.L1 > b.e.L1 || (v.e.L1 == b.e.L1 && v.order > b.order) {
@@ -423,6 +427,16 @@ func (p *provider) FinalisedHeight(context.Context) (uint64, error) {
 			in.catchupFault = true
 		}
 		w.st("finalised_height_failures", 1)
+		w.finalFailures++
+		if in.watchOK >= 1 {
+			w.advanceView(in)
+			for i := max(in.consumed, in.exposed, in.exposedFin); i < len(in.queue); i++ {
+				if in.queue[i].removed {
+					w.st("removal_notices_left_unread_across_a_stalled_finalised_query", 1)
+				}
+			}
+			in.exposedFin = len(in.queue)
+		}
 		return 0, errInjected
 	}
 	w.advanceView(in)
@@ -434,9 +448,9 @@ func (p *provider) FinalisedHeight(context.Context) (uint64, error) {
 	if !w.unclamped {
 		for i := in.consumed; i < len(in.queue); i++ {
 			it := in.queue[i]
-			if i < in.exposed {
+			if i < in.exposed || i < in.exposedFin {
 				if it.removed && it.e.L1 <= f {
-					w.st("finalised_answers_past_a_removal_left_unread_across_an_outage", 1)
+					w.st("finalised_answers_past_a_removal_notice_left_unread_across_an_outage_or_stall", 1)
 				}
 				continue
 			}
